@@ -6,6 +6,7 @@ open SamVerif.Scope
 #print axioms use_resolved_or_reported
 #print axioms rename_involutive
 #print axioms rename_tree_commutes
+#print axioms rename_member_commutes
 #print axioms rename_preserves_resolution
 #print axioms rename_preserves_resolution_partial
 #print axioms fresh_check_unsound_counterexample
